@@ -50,12 +50,16 @@ META = {
         "constructor and the stored field unchanged, and the render template of the node class each callback maps to "
         "re-emits exactly the delimiters the stdlib strips for that event (checked against the stdlib source: slice bounds, "
         "compared prefixes, terminator regexes), charrefs are not converted, void_elements covers the 13 WHATWG void "
-        "elements, attribute values that the stdlib unescapes are re-escaped on output; (R4) strip() mutates only the name "
-        "rebound to self.deepcopy() when not inplace, and constructors copy the attribute mapping; (R5) enclose() pops "
+        "elements, attribute values that the stdlib unescapes are re-escaped on output; (R4) with inplace false no mutating, iterating "
+        "or returning use in strip() can see the element itself (aliases of self are tracked through assignments and conditional "
+        "expressions; only paths consistent with inplace == False count), and constructors copy the attribute mapping; (R5) enclose() pops "
         "nothing on the no-match path and at most the match depth otherwise, the opening-tag function pushes exactly the "
         "new element, all other nest functions leave the stack alone; (R6) no exception escapes tokenize_html or any "
         "HTMLParser callback; (R7) walk() is pre-order in list order without duplicates and find() filters it in order "
-        "with subset / all-keys semantics."
+        "with subset / all-keys semantics (the body of the candidate loop is evaluated as a 64-row truth table over the name "
+        "predicate, classes-requested, subset and per-attribute match outcomes for 0, 1 and 2 requested attributes); (R8) every "
+        "feed() of an HtmlToAst in the package goes to a parser constructed for that call (not a cached / module-level / "
+        "memoised instance) unless feed() resets the inherited HTMLParser buffer first."
     ),
     "not_decided": (
         "exact round trip as a value for every well-formed document (only the structural necessary conditions above); "
@@ -1136,10 +1140,23 @@ def _judge_convert_charrefs(P: Ctx, rep: Report, std: ClassInfo) -> None:
             if p:
                 problems.append(p + (" (stdlib default: True)" if val is None else ""))
     ctor = [n for n in walk_local(tok.node) if isinstance(n, ast.Call) and P.c.find_class(tok.module.resolve(dotted(n.func) or "")) is not None and P.c.find_class(tok.module.resolve(dotted(n.func) or "")).fq == P.parser.fq]
+    via = None  # (helper, call in tokenize_html) when the parser is built by a one-level helper
+    if not ctor:
+        for call in [n for n in walk_local(tok.node) if isinstance(n, ast.Call)]:
+            for t in P.g.resolve_call(call, tok):
+                if isinstance(t, FunctionInfo) and not t.is_lambda and t.cls is None:
+                    inner = [n for n in walk_local(t.node) if isinstance(n, ast.Call) and P.c.find_class(t.module.resolve(dotted(n.func) or "")) is not None and P.c.find_class(t.module.resolve(dotted(n.func) or "")).fq == P.parser.fq]
+                    if len(inner) == 1 and via is None:
+                        ctor, via = inner, (t, call)
     if len(ctor) != 1:
         raise Unsupported(f"{tok.fq}: HtmlToAst(...) construction not found")
     if init is not None:
         val = _actual(ctor[0], init, "convert_charrefs")
+        if via is not None and isinstance(val, ast.Name) and val.id in via[0].params and len(_bindings(via[0], val.id)) == 1:
+            outer = _actual(via[1], via[0], val.id)
+            val = outer if outer is not None else _param_default(via[0], val.id)
+        elif via is not None and val is not None and not isinstance(val, ast.Constant):
+            raise Unsupported(f"{via[0].fq}: convert_charrefs value {short(val, 40)}")
         if val is not None:
             p = falsy_flow(tok, val)
             if p:
@@ -1229,6 +1246,93 @@ def _implies_true(node, pname: str) -> bool:
     return False
 
 
+def _flag_value(test: ast.expr, flag: str) -> bool | None:
+    """Value of ``test`` when the boolean parameter ``flag`` is false (None: does not depend on the flag alone)."""
+    if _is_name(test, flag):
+        return False
+    if isinstance(test, ast.UnaryOp) and isinstance(test.op, ast.Not):
+        v = _flag_value(test.operand, flag)
+        return None if v is None else not v
+    if isinstance(test, ast.Compare) and len(test.ops) == 1 and _is_name(test.left, flag) and isinstance(test.comparators[0], ast.Constant) and isinstance(test.comparators[0].value, bool):
+        c = test.comparators[0].value
+        if isinstance(test.ops[0], (ast.Is, ast.Eq)):
+            return c is False
+        if isinstance(test.ops[0], (ast.IsNot, ast.NotEq)):
+            return c is not False
+    return None
+
+
+def _selected(n: ast.AST, flag: str) -> bool:
+    """Is the expression node evaluated when ``flag`` is false (conditional expressions and short circuits)?"""
+    child = n
+    p = parent(n)
+    while p is not None and not isinstance(p, ast.stmt):
+        if isinstance(p, ast.IfExp) and child is not p.test:
+            v = _flag_value(p.test, flag)
+            if v is not None and (child is p.body) != v:
+                return False
+        elif isinstance(p, ast.BoolOp) and child in p.values:
+            for prev in p.values[: p.values.index(child)]:
+                v = _flag_value(prev, flag)
+                if v is not None and v == isinstance(p.op, ast.Or):
+                    return False  # short-circuited
+        child, p = p, parent(p)
+    return True
+
+
+def _may_be_self(e: ast.expr, flag: str, aliases: set[str]) -> bool:
+    """Can the value of ``e`` be the element itself when ``flag`` is false?"""
+    if isinstance(e, ast.Name):
+        return e.id == "self" or e.id in aliases
+    if isinstance(e, ast.IfExp):
+        v = _flag_value(e.test, flag)
+        if v is True:
+            return _may_be_self(e.body, flag, aliases)
+        if v is False:
+            return _may_be_self(e.orelse, flag, aliases)
+        return _may_be_self(e.body, flag, aliases) or _may_be_self(e.orelse, flag, aliases)
+    if isinstance(e, ast.BoolOp):
+        return any(_may_be_self(v, flag, aliases) and _selected(v, flag) for v in e.values)
+    return False
+
+
+def _use_role(n: ast.Name) -> str:
+    """alias | copy-source | mutating | harmless | unknown - what a use of an element-valued name does."""
+    child: ast.AST = n
+    p = parent(n)
+    while isinstance(p, (ast.IfExp, ast.BoolOp)) and not (isinstance(p, ast.IfExp) and child is p.test):
+        child, p = p, parent(p)
+    if isinstance(p, ast.Assign) and p.value is child and len(p.targets) == 1 and isinstance(p.targets[0], ast.Name):
+        return "alias"
+    if isinstance(p, ast.Return):
+        return "mutating"  # handing out the original as "the copy"
+    if child is not n:
+        return "unknown"
+    if isinstance(p, ast.Attribute) and isinstance(parent(p), ast.Call) and parent(p).func is p:
+        if p.attr == "deepcopy":
+            return "copy-source"
+        if p.attr in ELEMENT_MUTATORS:
+            return "mutating"
+        if p.attr in ("walk", "find", "render", "__len__", "__str__"):
+            return "harmless"
+        return "unknown"
+    if isinstance(p, ast.Subscript) and p.value is n:
+        return "mutating" if isinstance(p.ctx, (ast.Store, ast.Del)) else "harmless"
+    if isinstance(p, (ast.For, ast.comprehension)) and p.iter is n:
+        return "mutating"  # the children reached this way are stripped in place / re-parented
+    if isinstance(p, ast.Attribute) and p.attr in ("children", "_children"):
+        return "mutating"
+    if isinstance(p, ast.Attribute) and p.attr in ("name", "parent", "_parent") and isinstance(p.ctx, ast.Load):
+        return "harmless"
+    if isinstance(p, ast.Compare) and all(isinstance(o, (ast.Is, ast.IsNot)) for o in p.ops):
+        return "harmless"
+    if isinstance(p, ast.Call) and dotted(p.func) in ("len", "isinstance", "bool", "id") and n in p.args:
+        return "harmless"
+    if isinstance(p, (ast.If, ast.While)) and p.test is n or isinstance(p, ast.UnaryOp):
+        return "harmless"
+    return "unknown"
+
+
 @rule("C16.R4")
 def r4_copy_before_mutate(corpus: Corpus, rep: Report, tier: str):
     rep.rule("C16.R4", "strip(inplace=False) touches only the name rebound to self.deepcopy(); deepcopy does not write self; constructors copy the attribute mapping")
@@ -1240,54 +1344,73 @@ def r4_copy_before_mutate(corpus: Corpus, rep: Report, tier: str):
     if "inplace" not in strip.params:
         raise AnchorMissing("Element.strip has no `inplace` parameter")
     cfg = get_cfg(strip)
-    aliases, copies = [], []
-    for n in walk_local(strip.node):
-        if isinstance(n, ast.Assign) and len(n.targets) == 1 and isinstance(n.targets[0], ast.Name):
-            if _is_name(n.value, "self"):
-                aliases.append(n)
-            elif isinstance(n.value, ast.Call) and isinstance(n.value.func, ast.Attribute) and n.value.func.attr == "deepcopy" and _is_name(n.value.func.value, "self"):
-                copies.append(n)
-    if len(aliases) != 1 or len(copies) != 1 or aliases[0].targets[0].id != copies[0].targets[0].id:
-        raise Unsupported(f"{strip.fq}: expected one working name bound to `self` and rebound to `self.deepcopy()` (found {len(aliases)} alias / {len(copies)} copy assignment(s))")
-    alias, copy = aliases[0], copies[0]
-    work = alias.targets[0].id
-    if set(map(id, _bindings(strip, work))) != {id(alias), id(copy)}:
-        raise Unsupported(f"{strip.fq}: working name {work} has further bindings")
-    avoid = lambda n: n is copy or _implies_true(n, "inplace")  # noqa: E731
-    # (a) every use of the working name on a not-inplace path sees the copy
-    uses = []
-    for n in walk_local(strip.node):
-        if _is_name(n, work) and isinstance(n.ctx, ast.Load):
-            st = cfg.stmt_of(n)
-            if st not in uses and st is not alias and st is not copy:
-                uses.append(st)
-    for st in uses:
-        key = f"{strip.fq}|not inplace: `{short(st, 60)}` works on the copy"
-        if cfg.paths_avoiding(alias, st, avoid):
-            rep.violation("C16.R4", key, strip.module.site(st), f"with inplace=False `{short(st, 60)}` can execute while `{work}` is still the element itself (the rebinding to self.deepcopy() is not on that path): strip() alters / returns the original tree")
-        else:
-            rep.ok("C16.R4", key, strip.module.site(st))
-    # (b) direct uses of self on a not-inplace path
-    for n in walk_local(strip.node):
-        if not (_is_name(n, "self") and isinstance(n.ctx, ast.Load)):
+    flag = "inplace"
+    flag_true = lambda n: _implies_true(n, flag)  # noqa: E731
+
+    def is_copy(e) -> bool:
+        return isinstance(e, ast.Call) and isinstance(e.func, ast.Attribute) and e.func.attr == "deepcopy" and _is_name(e.func.value, "self") and not e.args
+
+    def single_target(b):
+        return b.targets[0].id if isinstance(b, ast.Assign) and len(b.targets) == 1 and isinstance(b.targets[0], ast.Name) else None
+
+    # names that (with inplace false) can hold the element itself, by fixpoint over plain assignments
+    assigns = [n for n in walk_local(strip.node, into_lambdas=False) if single_target(n)]
+    maybe_self: set[str] = set()
+    changed = True
+    while changed:
+        changed = False
+        for n in assigns:
+            if single_target(n) not in maybe_self and _may_be_self(n.value, flag, maybe_self):
+                maybe_self.add(single_target(n))
+                changed = True
+    working = set(maybe_self) | {single_target(n) for n in assigns if any(is_copy(x) for x in ast.walk(n.value))}
+    if not working:
+        raise Unsupported(f"{strip.fq}: no local name is bound to self or to self.deepcopy()")
+
+    def sees_self(name: str, st) -> bool:
+        """Can `name` still denote the element itself when `st` runs with inplace false?"""
+        binds = _bindings(strip, name)
+        for b in binds:
+            if b == "ENTRY" or not (single_target(b) and _may_be_self(b.value, flag, maybe_self)):
+                continue
+            if not cfg.paths_avoiding("ENTRY", b, flag_true):
+                continue
+            others = {x for x in binds if x is not b and x is not st}
+            if b is st or cfg.paths_avoiding(b, st, lambda n: n in others or flag_true(n)):
+                return True
+        return False
+
+    seen_items: set[str] = set()
+    for n in walk_local(strip.node, into_lambdas=False):
+        if not (isinstance(n, ast.Name) and isinstance(n.ctx, ast.Load) and (n.id == "self" or n.id in working)):
             continue
+        if not _selected(n, flag):
+            continue  # in the branch of a conditional expression that is not taken when inplace is false
         st = cfg.stmt_of(n)
-        if st is alias or st is copy:
+        role = _use_role(n)
+        if role in ("alias", "copy-source"):
             continue
-        if not cfg.paths_avoiding("ENTRY", st, lambda x: _implies_true(x, "inplace")):
-            continue  # only reachable when inplace is true
-        p = parent(n)
-        key = f"{strip.fq}|not inplace: `{short(st, 60)}` uses self"
-        mut = (
-            (isinstance(p, ast.Attribute) and isinstance(parent(p), ast.Call) and parent(p).func is p and p.attr in ELEMENT_MUTATORS)
-            or (isinstance(p, ast.Subscript) and isinstance(p.ctx, (ast.Store, ast.Del)))
-            or (isinstance(p, (ast.For, ast.comprehension)) and p.iter is n)
-            or (isinstance(p, ast.Attribute) and p.attr in ("children", "_children"))
-        )
-        if mut:
-            rep.violation("C16.R4", key, strip.module.site(st), f"`{short(st, 60)}` reaches the original element (self) although inplace is false: the original is mutated, or its children are moved into the copy (AssertionError `different parent`)")
+        if n.id == "self":
+            if not cfg.paths_avoiding("ENTRY", st, flag_true):
+                continue  # only reachable when inplace is true
+            key = f"{strip.fq}|not inplace: `{short(st, 60)}` uses self"
+            hit = True
         else:
-            raise Unsupported(f"{strip.fq}: use of self in `{short(st, 60)}`")
+            key = f"{strip.fq}|not inplace: `{short(st, 60)}` works on the copy"
+            hit = n.id in maybe_self and sees_self(n.id, st)
+        if key in seen_items:
+            continue
+        if not hit:
+            seen_items.add(key)
+            rep.ok("C16.R4", key, strip.module.site(st))
+        elif role == "harmless":
+            continue
+        elif role == "mutating":
+            seen_items.add(key)
+            what = "self" if n.id == "self" else f"`{n.id}`, which can still be the element itself (no rebinding to self.deepcopy() on that path)"
+            rep.violation("C16.R4", key, strip.module.site(st), f"with inplace=False `{short(st, 60)}` operates on {what}: strip() alters or returns the original tree instead of the copy (or moves the original's children into the copy: AssertionError `different parent`)")
+        else:
+            raise Unsupported(f"{strip.fq}: use of {n.id} in `{short(st, 60)}`")
     # (c) deepcopy does not write self
     for fi in _deepcopy_impls(P):
         rep.saw_function(fi.fq)
@@ -1329,7 +1452,7 @@ def r4_copy_before_mutate(corpus: Corpus, rep: Report, tier: str):
             rep.violation("C16.R4", key, init.module.site(n), f"`{short(n, 60)}` can store the very mapping it was given; deepcopy passes self.attrs, so the copy and the original share one Attribute object and editing the copy's attributes alters the original")
         else:
             raise Unsupported(f"{init.fq}: attrs value {short(val, 50)}")
-    rep.expect_min("C16.R4", 6, "3 uses of the working name in strip + 2 deepcopy bodies + the attrs copy on the pinned tree")
+    rep.expect_min("C16.R4", 5, "3 uses of the working name in strip + 2 deepcopy bodies + the attrs copy on the pinned tree")
 
 
 def _can_be_param(e: ast.expr, params: list[str]) -> bool:
@@ -1654,18 +1777,6 @@ def _order_problem(P: Ctx, e: ast.expr, fi: FunctionInfo, seen: set) -> str | No
     raise Unsupported(f"{fi.fq}: iteration source {short(e, 50)}")
 
 
-def _eval_bool(t: ast.expr, env: dict[str, bool]) -> bool:
-    if isinstance(t, ast.BoolOp):
-        vals = [_eval_bool(v, env) for v in t.values]
-        return all(vals) if isinstance(t.op, ast.And) else any(vals)
-    if isinstance(t, ast.UnaryOp) and isinstance(t.op, ast.Not):
-        return not _eval_bool(t.operand, env)
-    k = unparse(t)
-    if k not in env:
-        raise Unsupported(f"condition atom {k}")
-    return env[k]
-
-
 @rule("C16.R7")
 def r7_document_order(corpus: Corpus, rep: Report, tier: str):
     rep.rule("C16.R7", "walk() is pre-order in list order without duplicates; find() filters it in order: name test, classes subset, every requested attribute")
@@ -1746,11 +1857,9 @@ def r7_document_order(corpus: Corpus, rep: Report, tier: str):
     rep.saw_function(find.fq)
     fcfg = get_cfg(find)
     ys = [n for n in walk_local(find.node, into_lambdas=False) if isinstance(n, (ast.Yield, ast.YieldFrom))]
-    if len(ys) != 1 or not isinstance(ys[0], ast.Yield) or not isinstance(ys[0].value, ast.Name):
-        raise Unsupported(f"{find.fq}: expected a single `yield <element>`")
-    y = ys[0]
-    ystmt = fcfg.stmt_of(y)
-    cand = y.value.id
+    if not ys or any(not isinstance(y, ast.Yield) or not isinstance(y.value, ast.Name) for y in ys) or len({y.value.id for y in ys}) != 1:
+        raise Unsupported(f"{find.fq}: expected `yield <element>` of one loop variable")
+    cand = ys[0].value.id
     mains = [n for n in walk_local(find.node) if isinstance(n, ast.For) and _is_name(n.target, cand)]
     if len(mains) != 1:
         raise Unsupported(f"{find.fq}: loop binding {cand} not found")
@@ -1761,118 +1870,414 @@ def r7_document_order(corpus: Corpus, rep: Report, tier: str):
         rep.violation("C16.R7", key, find.module.site(main), f"find(): {prob}; matches are not returned in document order (or duplicates collapse)")
     else:
         rep.ok("C16.R7", key, find.module.site(main), f"`{short(main.iter, 40)}` derives from self.walk() / self in order")
-    _judge_find_classes(P, rep, find, main, cand, ystmt)
-    _judge_find_attrs(P, rep, find, main, cand, ystmt)
-    _judge_find_name(P, rep, find, cand, ystmt)
+    _judge_find_filters(P, rep, find, main, cand)
     rep.expect_min("C16.R7", 7, "__iter__, walk (3), find (4) on the pinned tree")
 
 
-def _judge_find_classes(P: Ctx, rep: Report, find: FunctionInfo, main: ast.For, cand: str, ystmt: ast.stmt) -> None:
-    key = f"{find.fq}|classes filter: requested classes are a subset of the element's"
-    calls = []
-    for n in walk_local(main):
-        if isinstance(n, ast.Call) and isinstance(n.func, ast.Attribute) and _is_name(n.func.value, "classes") and len(n.args) == 1 and cand in {x.id for x in ast.walk(n.args[0]) if isinstance(x, ast.Name)}:
-            calls.append(n)
-    if len(calls) != 1:
-        raise Unsupported(f"{find.fq}: expected one set test between `classes` and the candidate's classes, found {len(calls)}")
-    c = calls[0]
-    site = find.module.site(c)
-    if not any(isinstance(x, ast.Attribute) and x.attr == "classes" for x in ast.walk(c.args[0])):
-        raise Unsupported(f"{find.fq}: `{short(c, 50)}` does not read the candidate's classes")
-    if c.func.attr != "issubset":
-        rep.violation("C16.R7", key, site, f"`{short(c, 50)}`: the class filter must accept an element iff every requested class is among its classes (issubset); `{c.func.attr}` accepts a different set of elements")
-        return
-    iff = parent(c)
-    while iff is not None and not isinstance(iff, ast.If):
-        iff = parent(iff)
-    if iff is None or c not in list(ast.walk(iff.test)):
-        raise Unsupported(f"{find.fq}: subset test is not an `if` condition")
-    atoms = {unparse(c)}
-    others = set()
-    for x in ast.walk(iff.test):
-        if isinstance(x, ast.Compare) and unparse(x) in ("classes is not None", "classes is None"):
-            others.add(unparse(x))
-        elif isinstance(x, ast.Name) and x.id == "classes" and isinstance(parent(x), (ast.BoolOp, ast.If, ast.UnaryOp)):
-            others.add("classes")
-    env_given = {"classes is not None": True, "classes is None": False, "classes": True}
-    runs = {}
-    for sub in (True, False):
-        env = {k: v for k, v in env_given.items() if k in others}
-        env[unparse(c)] = sub
-        runs[sub] = _eval_bool(iff.test, env)
-    skips = len(iff.body) == 1 and isinstance(iff.body[0], (ast.Continue,)) and not iff.orelse
-    holds_yield = any(ystmt is s or ystmt in list(ast.walk(s)) for s in iff.body)
-    if skips and runs == {True: False, False: True} or holds_yield and runs == {True: True, False: False}:
-        rep.ok("C16.R7", key, site, "element kept iff classes.issubset(its classes)")
-    elif skips and runs == {True: True, False: False} or holds_yield and runs == {True: False, False: True}:
-        rep.violation("C16.R7", key, site, f"`{short(iff.test, 60)}`: the polarity of the class filter is inverted - elements that carry all requested classes are skipped")
-    else:
-        raise Unsupported(f"{find.fq}: class filter `{short(iff.test, 60)}` not understood")
+class _Raises(Exception):
+    pass
 
 
-def _judge_find_attrs(P: Ctx, rep: Report, find: FunctionInfo, main: ast.For, cand: str, ystmt: ast.stmt) -> None:
-    key = f"{find.fq}|attrs filter: every requested attribute must match"
-    loops = [n for n in walk_local(main) if isinstance(n, ast.For) and "attrs" in {x.id for x in ast.walk(n.iter) if isinstance(x, ast.Name)}]
-    if len(loops) != 1:
-        raise Unsupported(f"{find.fq}: expected one loop over the requested attrs")
-    lp = loops[0]
-    site = find.module.site(lp)
-    if not (isinstance(lp.iter, ast.Call) and isinstance(lp.iter.func, ast.Attribute) and lp.iter.func.attr == "items" and isinstance(lp.target, ast.Tuple) and len(lp.target.elts) == 2 and all(isinstance(e, ast.Name) for e in lp.target.elts)):
-        raise Unsupported(f"{find.fq}: attrs loop is not `for key, value in <attrs>.items()`")
-    k, v = (e.id for e in lp.target.elts)
-    if not (len(lp.body) == 1 and isinstance(lp.body[0], ast.If) and not lp.body[0].orelse and len(lp.body[0].body) == 1):
-        raise Unsupported(f"{find.fq}: attrs loop body")
-    iff = lp.body[0]
-    t = iff.test
-    want = {f"{cand}.attrs[{k}]", v}
-    if not (isinstance(t, ast.Compare) and len(t.ops) == 1 and {unparse(t.left), unparse(t.comparators[0])} == want):
-        raise Unsupported(f"{find.fq}: attrs test `{short(t, 50)}`")
-    in_else = any(ystmt is s or ystmt in list(ast.walk(s)) for s in lp.orelse)
-    act = iff.body[0]
-    if isinstance(t.ops[0], ast.NotEq) and isinstance(act, ast.Break) and in_else:
-        rep.ok("C16.R7", key, site, "break on the first mismatch; yield in the for-else")
-    elif isinstance(t.ops[0], ast.Eq) and isinstance(act, ast.Break) and in_else:
-        rep.violation("C16.R7", key, site, f"`{short(t, 50)}` breaks on the first *matching* attribute: an element is returned only if none of the requested attributes match")
-    elif isinstance(act, ast.Continue) and in_else:
-        rep.violation("C16.R7", key, site, "a mismatching attribute only `continue`s: the for-else always runs, so the attrs filter accepts every element")
-    elif not in_else:
-        rep.violation("C16.R7", key, site, "the element is yielded outside the for-else of the attrs loop: a mismatching attribute does not exclude it")
-    else:
-        raise Unsupported(f"{find.fq}: attrs filter shape")
+class _FindRun:
+    """One abstract run of the body of find()'s candidate loop.
 
+    Scenario: N (name predicate), G (classes requested), S (requested classes are a subset), attrs variant
+    ('none' | 'empty' | tuple of per-attribute match outcomes).  The statement subset is If / flag assignment /
+    the loop over the requested attributes (with break, continue, else) / all()-any() over it / yield / continue.
+    """
 
-def _judge_find_name(P: Ctx, rep: Report, find: FunctionInfo, cand: str, ystmt: ast.stmt) -> None:
-    key = f"{find.fq}|name filter: tag name equals / class is instance of the identifier"
-    cfg = get_cfg(find)
-    tests = [t for t, pol in cfg.guards(ystmt) if pol and isinstance(t, ast.Call) and isinstance(t.func, ast.Name) and len(t.args) == 1 and _is_name(t.args[0], cand)]
-    if len(tests) != 1:
-        raise Unsupported(f"{find.fq}: the yield is not guarded by one predicate call on the candidate")
-    fname = tests[0].func.id
-    lams = P.g._lambda_bindings(find).get(fname) or []
-    if not lams:
-        raise Unsupported(f"{find.fq}: predicate {fname} is not a local lambda")
-    bad = []
-    kinds = set()
-    for lam in lams:
-        b = lam.node.body
-        p = lam.params[0] if lam.params else None
-        if isinstance(b, ast.Compare) and len(b.ops) == 1 and {unparse(b.left), unparse(b.comparators[0])} == {f"{p}.name", "identifier"}:
-            kinds.add("name")
-            if not isinstance(b.ops[0], ast.Eq):
-                bad.append(short(b, 40))
-        elif isinstance(b, ast.Call) and dotted(b.func) == "isinstance" and [unparse(a) for a in b.args] == [p, "identifier"]:
-            kinds.add("isinstance")
+    def __init__(self, find: FunctionInfo, cand: str, N: bool, G: bool, S: bool, attrs):
+        self.find, self.cand, self.N, self.G, self.S, self.attrs = find, cand, N, G, S, attrs
+        self.flags: dict[str, bool] = {}
+        self.yields = 0
+        self.cur: tuple[str, str, bool] | None = None  # key name, value name, outcome of the current attribute
+        self.s_calls: list[ast.Call] = []
+        self.n_calls: list[ast.Call] = []
+        self.outer_break = False
+
+    # -- the requested-attributes sequence
+    def seq(self, it: ast.expr) -> list[bool]:
+        if not (isinstance(it, ast.Call) and isinstance(it.func, ast.Attribute) and it.func.attr == "items" and not it.args):
+            raise Unsupported(f"{self.find.fq}: loop source {short(it, 40)}")
+        src = it.func.value
+        if _is_name(src, "attrs"):
+            if self.attrs == "none":
+                raise _Raises("attrs=None (the default): `attrs.items()` raises AttributeError")
+        elif isinstance(src, ast.BoolOp) and isinstance(src.op, ast.Or) and _is_name(src.values[0], "attrs") and all(isinstance(v, ast.Dict) and not v.keys for v in src.values[1:]):
+            pass
         else:
-            raise Unsupported(f"{find.fq}: predicate `{short(b, 50)}`")
-    if bad:
-        rep.violation("C16.R7", key, find.module.site(tests[0]), f"name predicate `{bad[0]}` does not test equality with the requested tag name")
-    elif "name" in kinds:
-        rep.ok("C16.R7", key, find.module.site(tests[0]), " / ".join(sorted(kinds)))
-    else:
-        raise Unsupported(f"{find.fq}: no tag-name predicate")
+            raise Unsupported(f"{self.find.fq}: loop source {short(it, 40)}")
+        return [] if self.attrs in ("none", "empty") else list(self.attrs)
+
+    def is_attrs_loop(self, it: ast.expr) -> bool:
+        return "attrs" in {x.id for x in ast.walk(it) if isinstance(x, ast.Name)}
+
+    # -- conditions
+    def ev(self, t: ast.expr) -> bool:
+        if isinstance(t, ast.Constant) and isinstance(t.value, bool):
+            return t.value
+        if isinstance(t, ast.BoolOp):
+            if isinstance(t.op, ast.And):
+                return all(self.ev(v) for v in t.values)  # generator: short circuit
+            return any(self.ev(v) for v in t.values)
+        if isinstance(t, ast.UnaryOp) and isinstance(t.op, ast.Not):
+            return not self.ev(t.operand)
+        if isinstance(t, ast.Name):
+            if t.id in self.flags:
+                return self.flags[t.id]
+            if t.id == "classes":
+                return self.G
+            if t.id == "attrs":
+                return self.attrs not in ("none", "empty")
+            raise Unsupported(f"{self.find.fq}: condition on {t.id}")
+        if isinstance(t, ast.Compare) and len(t.ops) == 1:
+            l, op, r = t.left, t.ops[0], t.comparators[0]
+            if isinstance(r, ast.Constant) and r.value is None and isinstance(op, (ast.Is, ast.IsNot)) and isinstance(l, ast.Name) and l.id in ("classes", "attrs"):
+                v = self.G if l.id == "classes" else self.attrs != "none"
+                return v if isinstance(op, ast.IsNot) else not v
+            if self.cur is not None and isinstance(op, (ast.Eq, ast.NotEq)):
+                k, v, m = self.cur
+                sides = [l, r]
+                val = [x for x in sides if _is_name(x, v)]
+                got = [x for x in sides if self._is_attr_read(x, k)]
+                if len(val) == 1 and len(got) == 1:
+                    return m if isinstance(op, ast.Eq) else not m
+        if isinstance(t, ast.Call):
+            f = t.func
+            if isinstance(f, ast.Name) and len(t.args) == 1 and _is_name(t.args[0], self.cand) and not t.keywords and f.id not in ("all", "any"):
+                self.n_calls.append(t)
+                return self.N
+            if isinstance(f, ast.Attribute) and _is_name(f.value, "classes") and len(t.args) == 1 and self.cand in {x.id for x in ast.walk(t.args[0]) if isinstance(x, ast.Name)}:
+                if not self.G:
+                    raise _Raises(f"classes=None (the default): `{short(t, 40)}` raises AttributeError")
+                self.s_calls.append(t)
+                return self.S
+            if isinstance(f, ast.Name) and f.id in ("all", "any") and len(t.args) == 1 and isinstance(t.args[0], (ast.GeneratorExp, ast.ListComp)) and len(t.args[0].generators) == 1:
+                gen = t.args[0].generators[0]
+                if self.is_attrs_loop(gen.iter) and isinstance(gen.target, ast.Tuple) and len(gen.target.elts) == 2 and all(isinstance(e, ast.Name) for e in gen.target.elts) and not gen.ifs:
+                    k, v = (e.id for e in gen.target.elts)
+                    saved = self.cur
+                    res = []
+                    for m in self.seq(gen.iter):
+                        self.cur = (k, v, m)
+                        res.append(self.ev(t.args[0].elt))
+                    self.cur = saved
+                    return all(res) if f.id == "all" else any(res)
+        raise Unsupported(f"{self.find.fq}: condition `{short(t, 50)}`")
+
+    def _is_attr_read(self, e: ast.expr, k: str) -> bool:
+        c = self.cand
+        if isinstance(e, ast.Subscript) and _is_name(e.slice, k) and isinstance(e.value, ast.Attribute) and e.value.attr == "attrs" and _is_name(e.value.value, c):
+            return True
+        if isinstance(e, ast.Call) and isinstance(e.func, ast.Attribute) and e.func.attr == "get" and len(e.args) == 1 and _is_name(e.args[0], k):
+            v = e.func.value
+            return isinstance(v, ast.Attribute) and v.attr == "attrs" and _is_name(v.value, c)
+        return False
+
+    # -- statements: returns None | 'break' | 'continue' | 'return'
+    def block(self, stmts) -> str | None:
+        for st in stmts:
+            sig = self.stmt(st)
+            if sig:
+                return sig
+        return None
+
+    def stmt(self, st: ast.stmt) -> str | None:
+        if isinstance(st, ast.Pass) or (isinstance(st, ast.Expr) and isinstance(st.value, ast.Constant)):
+            return None
+        if isinstance(st, ast.If):
+            return self.block(st.body if self.ev(st.test) else st.orelse)
+        if isinstance(st, ast.Assign) and len(st.targets) == 1 and isinstance(st.targets[0], ast.Name):
+            self.flags[st.targets[0].id] = self.ev(st.value)
+            return None
+        if isinstance(st, ast.AugAssign) and isinstance(st.target, ast.Name) and st.target.id in self.flags and isinstance(st.op, (ast.BitAnd, ast.BitOr)):
+            v = self.ev(st.value)
+            self.flags[st.target.id] = (self.flags[st.target.id] and v) if isinstance(st.op, ast.BitAnd) else (self.flags[st.target.id] or v)
+            return None
+        if isinstance(st, ast.Expr) and isinstance(st.value, ast.Yield) and _is_name(st.value.value, self.cand):
+            self.yields += 1
+            return None
+        if isinstance(st, ast.Continue):
+            return "continue"
+        if isinstance(st, ast.Break):
+            return "break"
+        if isinstance(st, ast.Return) and st.value is None:
+            return "return"
+        if isinstance(st, ast.For) and self.is_attrs_loop(st.iter):
+            if not (isinstance(st.target, ast.Tuple) and len(st.target.elts) == 2 and all(isinstance(e, ast.Name) for e in st.target.elts)):
+                raise Unsupported(f"{self.find.fq}: loop target {short(st.target, 30)}")
+            k, v = (e.id for e in st.target.elts)
+            broke = False
+            saved = self.cur
+            for m in self.seq(st.iter):
+                self.cur = (k, v, m)
+                sig = self.block(st.body)
+                if sig == "break":
+                    broke = True
+                    break
+                if sig == "return":
+                    self.cur = saved
+                    return sig
+            self.cur = saved
+            if not broke:
+                return self.block(st.orelse)
+            return None
+        raise Unsupported(f"{self.find.fq}: statement `{short(st, 50)}` in the candidate loop")
 
 
-RULES = [r1_owner_writes, r2_fresh_insertion, r3_callbacks_and_delimiters, r4_copy_before_mutate, r5_stack_discipline, r6_totality, r7_document_order]
+def _find_scenarios():
+    variants = ["none", "empty", (True,), (False,), (True, True), (True, False), (False, True), (False, False)]
+    for N in (True, False):
+        for G in (True, False):
+            for S in ((True, False) if G else (True,)):
+                for a in variants:
+                    yield N, G, S, a
+
+
+def _scenario_text(N, G, S, a) -> str:
+    cls = "no classes requested" if not G else ("requested classes are a subset of the element's" if S else "a requested class is missing on the element")
+    att = "no attrs requested" if a in ("none", "empty") else f"requested attributes match = {list(a)}"
+    return f"name {'matches' if N else 'does not match'}, {cls}, {att}"
+
+
+def _judge_find_filters(P: Ctx, rep: Report, find: FunctionInfo, main: ast.For, cand: str) -> None:
+    """Truth table of the candidate loop body against: yield once iff name and (classes is None or subset) and all attrs match."""
+    keys = {
+        "classes": f"{find.fq}|classes filter: requested classes are a subset of the element's",
+        "attrs": f"{find.fq}|attrs filter: every requested attribute must match",
+        "name": f"{find.fq}|name filter: tag name equals / class is instance of the identifier",
+    }
+    site = find.module.site(main)
+    bad: dict[str, str] = {}
+    s_calls: dict[int, ast.Call] = {}
+    n_calls: dict[int, ast.Call] = {}
+    results: dict[tuple, tuple[bool, str, int]] = {}
+    for N, G, S, a in _find_scenarios():
+        run = _FindRun(find, cand, N, G, S, a)
+        want = 1 if (N and (not G or S) and (a in ("none", "empty") or all(a))) else 0
+        try:
+            sig = run.block(main.body)
+            got = "the element is yielded" + (f" {run.yields} times" if run.yields > 1 else "") if run.yields else "the element is not yielded"
+            wrong = run.yields != want
+            if sig == "break":
+                wrong, got = True, "the candidate loop is left (`break`): later matching elements are never returned"
+        except _Raises as e:
+            wrong, got = True, str(e)
+        for c in run.s_calls:
+            s_calls[id(c)] = c
+        for c in run.n_calls:
+            n_calls[id(c)] = c
+        results[(N, G, S, a)] = (wrong, got, want)
+    for (N, G, S, a), (wrong, got, want) in results.items():
+        if not wrong:
+            continue
+        if not N:
+            which = "name"
+        elif results[(N, False, True, a)][0]:
+            which = "attrs"  # wrong even when no classes are requested
+        else:
+            which = "classes"
+        bad.setdefault(which, f"when {_scenario_text(N, G, S, a)}: {got} (expected: {'yielded once' if want else 'not yielded'})")
+    # the set test itself
+    if not s_calls:
+        bad.setdefault("classes", "the requested classes are never compared with the element's classes")
+    for c in s_calls.values():
+        if not any(isinstance(x, ast.Attribute) and x.attr == "classes" for x in ast.walk(c.args[0])):
+            raise Unsupported(f"{find.fq}: `{short(c, 50)}` does not read the candidate's classes")
+        if c.func.attr != "issubset":
+            bad["classes"] = f"`{short(c, 50)}`: the class filter must accept an element iff every requested class is among its classes (issubset); `{c.func.attr}` accepts a different set of elements"
+    # the name predicate
+    if not n_calls:
+        bad.setdefault("name", "no predicate on the candidate's name / class guards the yield")
+    for c in n_calls.values():
+        lams = P.g._lambda_bindings(find).get(c.func.id) or []
+        if not lams:
+            raise Unsupported(f"{find.fq}: predicate {c.func.id} is not a local lambda")
+        kinds = set()
+        for lam in lams:
+            b = lam.node.body
+            p0 = lam.params[0] if lam.params else None
+            if isinstance(b, ast.Compare) and len(b.ops) == 1 and {unparse(b.left), unparse(b.comparators[0])} == {f"{p0}.name", "identifier"}:
+                kinds.add("name")
+                if not isinstance(b.ops[0], ast.Eq):
+                    bad["name"] = f"name predicate `{short(b, 40)}` does not test equality with the requested tag name"
+            elif isinstance(b, ast.Call) and dotted(b.func) == "isinstance" and [unparse(x) for x in b.args] == [p0, "identifier"]:
+                kinds.add("isinstance")
+            else:
+                raise Unsupported(f"{find.fq}: predicate `{short(b, 50)}`")
+        if "name" not in kinds:
+            raise Unsupported(f"{find.fq}: no tag-name predicate")
+    for which, key in keys.items():
+        if which in bad:
+            rep.violation("C16.R7", key, site, f"find(): {bad[which]}")
+        else:
+            rep.ok("C16.R7", key, site, "64-row truth table of the candidate loop agrees with: name and (classes is None or subset) and all requested attributes equal")
+
+
+# ---------------------------------------------------------------------------
+# R8 every parse starts from clean tokenizer state
+
+CACHE_DECORATORS = {"lru_cache", "cache", "cached_property", "cached", "memoize"}
+
+
+def _parser_ctor(P: Ctx, e: ast.expr, fi: FunctionInfo) -> bool:
+    if not isinstance(e, ast.Call):
+        return False
+    ci = P.c.find_class(fi.module.resolve(dotted(e.func) or ""))
+    return ci is not None and any(c.fq == P.parser.fq for c in P.c.mro(ci))
+
+
+def _parser_lifetime(P: Ctx, recv: ast.expr, fi: FunctionInfo, call_stmt, depth: int = 0) -> tuple[bool, str]:
+    """(fresh, why): is the parser object that receives feed() created for this very call?"""
+    if _parser_ctor(P, recv, fi):
+        return True, f"constructed in the call: {short(recv, 40)}"
+    if isinstance(recv, ast.Call) and isinstance(recv.func, ast.Attribute) and recv.func.attr in ("setdefault", "get", "pop", "__getitem__"):
+        box = recv.func.value
+        root = box
+        while isinstance(root, (ast.Subscript, ast.Attribute)):
+            root = root.value
+        if isinstance(box, ast.Attribute) or (isinstance(root, ast.Name) and not _bindings(fi, root.id)):
+            return False, f"`{short(recv, 40)}` takes the parser out of a container that lives across calls"
+        raise Unsupported(f"{fi.fq}: parser obtained from `{short(recv, 40)}`")
+    if isinstance(recv, ast.Call) and depth < 2:
+        tg = [t for t in P.g.resolve_call(recv, fi) if isinstance(t, FunctionInfo)]
+        if len(tg) == 1 and not tg[0].is_lambda:
+            f = tg[0]
+            if any(d.rsplit(".", 1)[-1] in CACHE_DECORATORS for d in f.decorators()):
+                return False, f"`{f.qualname}` is memoised ({', '.join(f.decorators())}): it hands out the same parser again"
+            rets = [n for n in walk_local(f.node) if isinstance(n, ast.Return)]
+            if rets and all(r.value is not None for r in rets):
+                sub = [_parser_lifetime(P, r.value, f, get_cfg(f).stmt_of(r), depth + 1) for r in rets]
+                if all(x[0] for x in sub):
+                    return True, f"`{f.qualname}` builds a new parser on every call"
+                return False, next(x[1] for x in sub if not x[0])
+        raise Unsupported(f"{fi.fq}: parser obtained from `{short(recv, 40)}`")
+    if isinstance(recv, ast.Name):
+        binds = _bindings(fi, recv.id)
+        if not binds:
+            if recv.id in fi.module.const_nodes or any(isinstance(st, (ast.Assign, ast.AnnAssign)) and any(_is_name(x, recv.id) for x in ast.walk(st)) for st in fi.module.tree.body):
+                return False, f"`{recv.id}` is a module-level / enclosing-scope object that lives across calls"
+            raise Unsupported(f"{fi.fq}: parser name {recv.id} has no binding")
+        if binds == ["ENTRY"]:
+            raise Unsupported(f"{fi.fq}: the parser is a parameter ({recv.id})")
+        cfg = get_cfg(fi)
+        for b in binds:
+            if not isinstance(b, (ast.Assign, ast.AnnAssign)) or b.value is None:
+                raise Unsupported(f"{fi.fq}: binding of {recv.id}")
+            ok, why = _parser_lifetime(P, b.value, fi, b, depth)
+            if not ok:
+                return False, why
+            if cfg.loops.get(b) is not cfg.loops.get(call_stmt):
+                return False, f"`{recv.id}` is created outside the loop that feeds it repeatedly"
+        return True, f"`{recv.id}` is bound to a parser constructed in this call"
+    if isinstance(recv, (ast.Subscript, ast.Attribute)):
+        return False, f"`{short(recv, 40)}` is stored state that lives across calls"
+    if isinstance(recv, ast.IfExp):
+        a, b = _parser_lifetime(P, recv.body, fi, call_stmt, depth), _parser_lifetime(P, recv.orelse, fi, call_stmt, depth)
+        return (a[0] and b[0]), (a[1] if not a[0] else b[1])
+    raise Unsupported(f"{fi.fq}: parser expression `{short(recv, 40)}`")
+
+
+def _mentions_parser(P: Ctx, node: ast.AST, fi: FunctionInfo, depth: int = 0) -> bool:
+    """Does the definition mention the parser class, directly or through a package function it calls / a module-level name?"""
+    names = {x.id for x in ast.walk(node) if isinstance(x, ast.Name)}
+    if P.parser.name in names:
+        return True
+    if depth >= 2:
+        return False
+    for c in ast.walk(node):
+        if isinstance(c, ast.Call):
+            for t in P.g.resolve_call(c, fi):
+                if isinstance(t, FunctionInfo) and not t.is_lambda and t.cls is None and _mentions_parser(P, t.node, t, depth + 1):
+                    return True
+    val = node.value if isinstance(node, (ast.Assign, ast.AnnAssign)) else None
+    for x in ast.walk(val) if val is not None else []:
+        if isinstance(x, ast.Name):
+            for st in fi.module.tree.body:
+                if isinstance(st, (ast.Assign, ast.AnnAssign)) and st is not node and any(_is_name(y, x.id) for t in (st.targets if isinstance(st, ast.Assign) else [st.target]) for y in ast.walk(t)):
+                    if _mentions_parser(P, st, fi, depth + 1):
+                        return True
+    return False
+
+
+def _feed_resets(P: Ctx, corpus: Corpus) -> tuple[bool, str]:
+    """Does HtmlToAst.feed() bring the inherited tokenizer state back to empty before feeding?"""
+    feed = P.parser.methods.get("feed")
+    if feed is None:
+        return False, "HtmlToAst does not override feed()"
+    cfg = get_cfg(feed)
+    sup = [n for n in walk_local(feed.node) if isinstance(n, ast.Call) and dotted(n.func) == "super().feed"]
+    res = [n for n in walk_local(feed.node) if isinstance(n, ast.Call) and dotted(n.func) in ("self.reset", "super().reset") and not n.args]
+    if not sup:
+        raise Unsupported(f"{feed.fq}: no super().feed(...) call")
+    _, _, std = _stdlib(corpus)
+    sreset = std.methods.get("reset")
+    clears = sreset is not None and any(isinstance(n, ast.Assign) and any(_is_self_attr(t, "rawdata") for t in n.targets) for n in walk_local(sreset.node))
+    own = P.parser.methods.get("reset")
+    if own is not None and not any(isinstance(n, ast.Call) and dotted(n.func) == "super().reset" for n in walk_local(own.node)):
+        clears = False
+    if res and clears and all(any(cfg.dominates(cfg.stmt_of(r), cfg.stmt_of(c)) for r in res) for c in sup):
+        return True, "feed() calls reset() (stdlib: clears rawdata and CDATA mode) before super().feed()"
+    return False, "feed() does not reset the inherited HTMLParser buffer"
+
+
+@rule("C16.R8")
+def r8_clean_state_per_parse(corpus: Corpus, rep: Report, tier: str):
+    rep.rule("C16.R8", "each parse starts from clean tokenizer state: the parser that tokenize_html (or any package caller) feeds is constructed for that call, or feed() resets the inherited buffer first")
+    P = _ctx(corpus)
+    resets, rwhy = _feed_resets(P, corpus)
+    feed = P.parser.methods.get("feed")
+    sites = []
+    for fi in corpus.all_functions():
+        if fi.is_lambda:
+            continue
+        for call in walk_local(fi.node, into_lambdas=False):
+            if not (isinstance(call, ast.Call) and isinstance(call.func, ast.Attribute) and call.func.attr == "feed"):
+                continue
+            if dotted(call.func) == "super().feed":
+                continue
+            tg = P.g.resolve_call(call, fi)
+            hit = any(isinstance(t, FunctionInfo) and feed is not None and t.fq == feed.fq for t in tg)
+            if not hit:
+                rt = P.g.expr_type(call.func.value, fi)
+                hit = bool(rt and rt[0] == "is" and any(c.fq == P.parser.fq for c in P.c.mro(rt[1])))
+            if not hit and fi.module.resolve(P.parser.name) == f"{P.m.name}.{P.parser.name}":
+                # receiver of unknown type in a module that knows the parser class: look at what its root name holds
+                root = call.func.value
+                while isinstance(root, (ast.Subscript, ast.Attribute, ast.Call)):
+                    root = root.value if not isinstance(root, ast.Call) else root.func
+                if isinstance(root, ast.Name) and root.id != "self":
+                    defs = [st for st in fi.module.tree.body if isinstance(st, (ast.Assign, ast.AnnAssign)) and any(_is_name(x, root.id) for t in (st.targets if isinstance(st, ast.Assign) else [st.target]) for x in ast.walk(t))]
+                    defs += [b for b in _bindings(fi, root.id) if b != "ENTRY"]
+                    if any(_mentions_parser(P, d, fi) for d in defs):
+                        hit = True
+                    elif fi.module.name == P.m.name and not any(isinstance(t, FunctionInfo) for t in tg):
+                        raise Unsupported(f"{fi.fq}: cannot tell whether `{short(call, 50)}` feeds an HtmlToAst")
+            if hit:
+                sites.append((fi, call))
+    for fi, call in sites:
+        rep.saw_function(fi.fq)
+        rep.saw_call(fi.module.site(call))
+        key = f"{fi.fq}|the parser fed here starts from clean state"
+        site = fi.module.site(call)
+        if resets:
+            rep.ok("C16.R8", key, site, rwhy)
+            continue
+        fresh, why = _parser_lifetime(P, call.func.value, fi, get_cfg(fi).stmt_of(call))
+        if fresh:
+            rep.ok("C16.R8", key, site, why)
+        else:
+            rep.violation(
+                "C16.R8",
+                key,
+                site,
+                f"{why}, and {rwhy}: HTMLParser keeps unconsumed input (rawdata) and CDATA mode between feed() calls, so after a document that ends inside an unfinished construct "
+                "(`text <div`, `a &am`, `<script>`) the left-over text is prepended to - or swallows - the next, well-formed document and its rendering no longer equals its source",
+            )
+    rep.expect_min("C16.R8", 1, "tokenize_html feeds a parser")
+
+
+RULES = [r1_owner_writes, r2_fresh_insertion, r3_callbacks_and_delimiters, r4_copy_before_mutate, r5_stack_discipline, r6_totality, r7_document_order, r8_clean_state_per_parse]
 
 
 def _method_src(fi: FunctionInfo) -> str:
@@ -1962,7 +2367,42 @@ def mutants(corpus: Corpus):
     add("c16-strict-mode-raises-on-unmatched-close", "C16.R6", fl.orelse[0] if fl is not None else None, 'raise ValueError(f"unmatched closing tag {name}")', "ValueError")
     c = find_node(H["handle_charref"], lambda n: isinstance(n, ast.Call) and unparse(n.func).endswith("nest_terminal"))
     add("c16-charref-validated-with-int", "C16.R6", c.args[1] if c is not None else None, "str(int(data))", "int(")
+    pms = H.get("parse_marked_section")
+    add("c16-marked-section-override-removed", "C16.R6", pms.node if pms is not None else None, "pass", "feed")  # reverts cda43d1
+    hd = find_node(pms, lambda n: isinstance(n, ast.ExceptHandler) and n.type is not None) if pms is not None else None
+    add("c16-marked-section-handler-narrowed", "C16.R6", hd.type if hd is not None else None, "ValueError", "feed")
+    # ---- R4 (class: an operation of strip() reaches the original although inplace is false)
+    c = find_node(s_, lambda n: isinstance(n, ast.Call) and unparse(n.func) == "element.reset_children")
+    add("c16-strip-resets-children-of-original", "C16.R4", c.func.value if c is not None else None, "self", "uses self")
+    c = find_node(s_, lambda n: isinstance(n, ast.Attribute) and unparse(n) == "element.children")
+    add("c16-strip-takes-children-from-original", "C16.R4", c.value if c is not None else None, "self", "uses self")
+    r = find_node(s_, lambda n: isinstance(n, ast.Return))
+    add("c16-strip-returns-original", "C16.R4", r.value if r is not None else None, "self", "uses self")
+    # ---- R8 (class: a parser object that outlives the call is fed again without reset)
+    tok = m.func("tokenize_html")
+    ctor = find_node(tok, lambda n: isinstance(n, ast.Call) and unparse(n.func) == P.parser.name)
+    if ctor is not None:
+        seg = ast.get_source_segment(src, ctor)
+        out.append(Mutant("c16-parser-cached-per-config", "C16.R8", m.rel, splice(src, ctor, f"_parser_cache.setdefault((name, convert_charrefs), {seg})") + "\n\n_parser_cache: dict = {}\n", expect="tokenize_html"))
+        out.append(Mutant("c16-parser-factory-memoised", "C16.R8", m.rel, splice(src, ctor, "_get_parser(name, convert_charrefs)") + f"\n\nimport functools\n\n\n@functools.lru_cache(maxsize=None)\ndef _get_parser(name, convert_charrefs):\n    return {seg}\n", expect="tokenize_html", canary=True))
+        out.append(Mutant("c16-parser-module-singleton", "C16.R8", m.rel, splice(src, ctor, "_PARSER") + f"\n\n_PARSER = {P.parser.name}()\n", expect="tokenize_html"))
+    else:
+        out.append(("c16-parser-cached-per-config", "tokenize_html no longer constructs the parser itself"))
     # ---- R7
+    f_ = E["find"]
+    al = find_node(f_, lambda n: isinstance(n, ast.For) and n.orelse and "attrs" in unparse(n.iter))
+    if al is not None and isinstance(al.target, ast.Tuple):
+        ind = " " * al.col_offset
+        it = unparse(al.iter)
+        k_, v_ = (unparse(e) for e in al.target.elts)
+        cnd = unparse(find_node(f_, lambda n: isinstance(n, ast.Yield)).value)
+        eq = f"{cnd}.attrs[{k_}] == {v_}"
+        body = lambda first, upd: f"matched = {first}\n{ind}for {k_}, {v_} in {it}:\n{ind}    matched = {upd}\n{ind}if matched:\n{ind}    yield {cnd}"  # noqa: E731
+        out.append(Mutant("c16-find-attrs-flag-overwritten", "C16.R7", m.rel, splice(src, al, body("True", eq)), expect="attrs filter"))
+        out.append(Mutant("c16-find-attrs-flag-or-ed", "C16.R7", m.rel, splice(src, al, body("False", f"matched or {eq}")), expect="attrs filter"))
+        out.append(Mutant("c16-find-attrs-any-instead-of-all", "C16.R7", m.rel, splice(src, al, f"if any({eq} for {k_}, {v_} in {it}):\n{ind}    yield {cnd}"), expect="attrs filter"))
+    else:
+        out.append(("c16-find-attrs-flag-overwritten", "the attrs filter of find() is no longer a for/else loop"))
     w = E["walk"]
     lp = find_node(w, lambda n: isinstance(n, ast.For))
     if lp is not None and len(lp.body) == 2:
